@@ -71,6 +71,8 @@ def run_filter(lines):
 def frame_of_name(name):
     if name == "caller_frame":
         return "FCaller"
+    if name == "prep_site":
+        return {"FHelper": [-1]}
     m = re.match(r"^lvl_(\d+)$", name)
     if m:
         return {"FTask": [int(m.group(1))]}
@@ -80,6 +82,16 @@ def frame_of_name(name):
     return {"FOther": [S(name)]}
 
 
+def prep_site():
+    """An exception instance that was raised, caught and prepared for re-raising outside asynq."""
+    try:
+        raise Boom("prepared earlier")
+    except Boom as e:
+        from qcore.errors import prepare_for_reraise
+        prepare_for_reraise(e)
+        return e
+
+
 def make_chain(ms, bottom, meta):
     d = len(ms) + 1
     fns = [None] * d
@@ -87,13 +99,18 @@ def make_chain(ms, bottom, meta):
     pre_yields = int(meta.get("pre_yields", 1))
     shapes = meta.get("shapes") or []
 
+    prepared = prep_site() if bk == "BPrepared" else None
+
+    def new_exc():
+        return prepared if prepared is not None else Boom("bottom")
+
     def make_helpers(k):
         helpers = {}
 
         def mkh(j):
             def h():
                 if j == k:
-                    raise Boom("bottom")
+                    raise new_exc()
                 return helpers[j + 1]()
             return named(h, "hlp_%d" % j)
         for j in range(1, k + 1):
@@ -112,7 +129,7 @@ def make_chain(ms, bottom, meta):
 
     def mk(i):
         if i == d - 1:
-            if bk == "BRaise":
+            if bk in ("BRaise", "BPrepared"):
                 k = nat(ba[0])
                 helpers = make_helpers(k)
 
@@ -120,7 +137,7 @@ def make_chain(ms, bottom, meta):
                     for _ in range(pre_yields):
                         yield None
                     if k == 0:
-                        raise Boom("bottom")
+                        raise new_exc()
                     helpers[1]()
             else:
                 def body():
@@ -269,7 +286,7 @@ def format_variants(err, tb, depth):
 def names_in(text):
     # a chained exception (__context__/__cause__) is printed first; the traceback of the exception itself comes last
     text = re.split(r"another exception occurred:|direct cause of the following exception:", text or "")[-1]
-    return re.findall(r"\bin ((?:lvl|hlp)_\d+|caller_frame)\b", text or "")
+    return re.findall(r"\bin ((?:lvl|hlp)_\d+|caller_frame|prep_site)\b", text or "")
 
 
 def run_chain(ms, bottom, meta):
